@@ -104,7 +104,7 @@ def tok(text):
 
 CHANNELS = ["label", "hint", "guidance", "cmsg", "rmsg", "choice_label", "choice_extra", "default", "title", "version", "appearance",
             "bind_attr", "instance_attr", "body_attr", "settings_attr", "group_label", "label_ref", "hint_ref", "itext_label", "itext_hint", "choice_itext",
-            "note_label_ref2", "label_instance"]
+            "note_label_ref2", "label_instance", "itext_label_ref", "choice_itext_ref"]
 
 
 INSTANCE_OK = {"p", "lt", "gt", "sp", "apos"}
@@ -143,6 +143,9 @@ def build(classes, seed=0, only=None, with_instance=None):
     q.append({"type": "text", "name": "q_lref", "label": put_full("label_ref", "%s ${q0} tail") or "L"})
     q.append({"type": "text", "name": "q_href", "label": "QHR", "hint": put_full("hint_ref", "${q0} %s")})
     q.append({"type": "end group"})
+    # a translated label that mixes text with a reference, immediately before plain translated text (itext values are
+    # produced one after the other: the treatment of one must not leak into the next)
+    q.append({"type": "text", "name": "q_itref", "label::English (en)": put_full("itext_label_ref", "%s ${q0}") or "IR"})
     q.append({"type": "text", "name": "q_it", "label::English (en)": put("itext_label"), "hint::English (en)": put("itext_hint")})
     q.append({"type": "select_one M", "name": "q_selm", "label::English (en)": "QSM"})
     q.append({"type": "note", "name": "q_two", "label": put_full("note_label_ref2", "${q0}%s${q_label}") or "N"})
@@ -161,7 +164,7 @@ def build(classes, seed=0, only=None, with_instance=None):
     q = [{k: v for k, v in r.items() if v is not None} for r in q]
     sheets = [{"name": "survey", "header": cols, "rows": [[r.get(c) for c in cols] for r in q]}]
     sheets.append({"name": "choices", "header": ["list_name", "name", "label", "xcol", "label::English (en)"],
-                   "rows": [["L", "l1", put("choice_label"), put("choice_extra"), None], ["L", "l2", "plain", None, None], ["M", "m1", None, None, put("choice_itext")]]})
+                   "rows": [["L", "l1", put("choice_label"), put("choice_extra"), None], ["L", "l2", "plain", None, None], ["M", "m0", None, None, put_full("choice_itext_ref", "%s ${q0}") or "M0"], ["M", "m1", None, None, put("choice_itext")]]})
     st = {"form_title": put("title"), "version": put("version"), "attribute::sattr": put("settings_attr")}
     st = {k: v for k, v in st.items() if v is not None}
     if st:
@@ -246,8 +249,11 @@ def recover(xform, chans):
             item = dict(sec["L"]["items"][0]) if "L" in sec and sec["L"]["items"] else {}
             r = T(item.get("xcol")) if "xcol" in item else None
         elif ch == "choice_itext":
-            item = dict(sec["M"]["items"][0]) if "M" in sec and sec["M"]["items"] else {}
+            item = dict(sec["M"]["items"][1]) if "M" in sec and len(sec["M"]["items"] or []) > 1 else {}
             r = itform(item["itextId"], None, "English (en)") if "itextId" in item else (T(item.get("label")) if "label" in item else None)
+        elif ch == "choice_itext_ref":
+            item = dict(sec["M"]["items"][0]) if "M" in sec and sec["M"]["items"] else {}
+            r = itform(item["itextId"], None, "English (en)") if "itextId" in item else None
         elif ch == "default":
             n = inst.get(("data", "q_default"))
             if n is not None and n["text"]:
@@ -282,6 +288,8 @@ def recover(xform, chans):
             r = lab("/data/grp/q_href", "hint")
         elif ch == "itext_label":
             r = lab("/data/q_it", "label", "English (en)")
+        elif ch == "itext_label_ref":
+            r = lab("/data/q_itref", "label", "English (en)")
         elif ch == "itext_hint":
             r = lab("/data/q_it", "hint", "English (en)")
         elif ch == "note_label_ref2":
@@ -290,6 +298,16 @@ def recover(xform, chans):
             r = lab("/data/q_inst", "label")
         out[ch] = r
     return out
+
+
+def default_place(xform):
+    """where q_default's default went: 'instance' (literal node content), 'setvalue' (an action), 'both', 'none'"""
+    root = project.parse(xform)
+    prim = project.primary_root(root)
+    n = next((k for k in prim if project.local(k.tag) == "q_default"), None)
+    in_inst = n is not None and bool(n.text)
+    sv = any(a.get("ref") == "/data/q_default" for a in project.all_setvalues(root))
+    return "both" if in_inst and sv else "instance" if in_inst else "setvalue" if sv else "none"
 
 
 def skeleton_sig(xform):
